@@ -83,9 +83,11 @@ fn emit<T>(it: Result<impl ExactSizeIterator<Item = Result<T, ExternalChunkError
 /// two on one sorter; the second (every second record, reversed order) runs and is drained while the first
 /// result is still unread. 2: the observed sort is the SECOND; the first result, unread so far, is
 /// drained afterwards. `sort(&self)` lends the sorter, so every call must meet the property on its own.
-fn reuse_mode(c: &C) -> u64 { (c.border / 24) % 3 }
+/// 3: one sort, and the sorter is dropped BEFORE the first item of the result is read (the returned iterator does
+/// not borrow the sorter, so this order is legal: `let it = builder.build()?.sort(xs)?;`).
+fn reuse_mode(c: &C) -> u64 { (c.border / 24) % 4 }
 
-fn sort_reusing<T, F>(sorter: &bed_utils::extsort::ExternalSorter, xs: Vec<T>, cmp: F, mode: u64, key: impl Fn(&T) -> Vec<u64>, dig: impl Fn(&T) -> Vec<u8>) -> String
+fn sort_reusing<T, F>(sorter: bed_utils::extsort::ExternalSorter, xs: Vec<T>, cmp: F, mode: u64, key: impl Fn(&T) -> Vec<u64>, dig: impl Fn(&T) -> Vec<u8>) -> String
 where T: Serialize + DeserializeOwned + Send + Clone, F: Fn(&T, &T) -> std::cmp::Ordering + Sync + Send + Copy {
     // the other sort gets a different input (every second record, reversed): were the two sorts to share
     // anything on disk, the observed one would lose or gain records
@@ -103,6 +105,11 @@ where T: Serialize + DeserializeOwned + Send + Clone, F: Fn(&T, &T) -> std::cmp:
             if let Ok(first) = first { for _ in first {} }
             out
         }
+        3 => {
+            let it = sorter.sort_by(xs, cmp);
+            drop(sorter);
+            emit(it, key, dig)
+        }
         _ => emit(sorter.sort_by(xs, cmp), key, dig),
     }
 }
@@ -112,8 +119,7 @@ fn run_real<T: Serialize + DeserializeOwned + Send + BEDLike + Clone>(c: &C) -> 
     let (b, dir) = builder(c);
     let sorter = b.build().ok()?;
     let rev = c.rev;
-    let out = sort_reusing(&sorter, recs, move |a: &T, b: &T| if rev { b.compare(a) } else { a.compare(b) }, reuse_mode(c), |x| rec_key(x), |x| ser(x));
-    drop(sorter);
+    let out = sort_reusing(sorter, recs, move |a: &T, b: &T| if rev { b.compare(a) } else { a.compare(b) }, reuse_mode(c), |x| rec_key(x), |x| ser(x));
     if let Some(d) = dir { std::fs::remove_dir_all(d).ok(); }
     Some(out)
 }
@@ -134,8 +140,7 @@ fn exec_here(t: &[String]) -> Option<String> {
         "kv" => {
             let (b, dir) = builder(&c);
             let sorter = b.build().ok()?;
-            let out = sort_reusing(&sorter, c.xs.clone(), cmp_key(c.rev), reuse_mode(&c), |x: &SItem| x.0.clone(), |x: &SItem| x.1.clone());
-            drop(sorter);
+            let out = sort_reusing(sorter, c.xs.clone(), cmp_key(c.rev), reuse_mode(&c), |x: &SItem| x.0.clone(), |x: &SItem| x.1.clone());
             if let Some(d) = dir { std::fs::remove_dir_all(d).ok(); }
             Some(out)
         }
@@ -214,12 +219,12 @@ fn gen(rng: &mut Rng, tier: Tier) -> Vec<Case> {
                     let n = (k as i64 * c.max(1) as i64 + d).max(0) as usize;
                     if n > 300 { continue; }
                     let shape = rng.below(6);
-                    push("boundary", C { rev: rng.chance(1, 4), chunk: c, threads: *rng.pick(&threads), comp: *rng.pick(&comps), tmp: rng.chance(1, 2), ty: "kv".into(), border: rng.below(24) + 24 * (if rng.chance(1, 4) { rng.range(1, 2) } else { 0 }), xs: kv(rng, n, shape) });
+                    push("boundary", C { rev: rng.chance(1, 4), chunk: c, threads: *rng.pick(&threads), comp: *rng.pick(&comps), tmp: rng.chance(1, 2), ty: "kv".into(), border: rng.below(24) + 24 * (if rng.chance(1, 3) { rng.range(1, 3) } else { 0 }), xs: kv(rng, n, shape) });
                 }
             }
         }
         for n in [0usize, 1, 2, 5, 50] {
-            for c in [n, n + 1, 1_000_000, 1 << 33, 1 << 40, usize::MAX / 16, usize::MAX] { let shape = rng.below(6); push("boundary", C { rev: false, chunk: c, threads: *rng.pick(&threads), comp: *rng.pick(&comps), tmp: rng.chance(1, 2), ty: "kv".into(), border: rng.below(24) + 24 * (if rng.chance(1, 4) { rng.range(1, 2) } else { 0 }), xs: kv(rng, n, shape) }); }
+            for c in [n, n + 1, 1_000_000, 1 << 33, 1 << 40, usize::MAX / 16, usize::MAX] { let shape = rng.below(6); push("boundary", C { rev: false, chunk: c, threads: *rng.pick(&threads), comp: *rng.pick(&comps), tmp: rng.chance(1, 2), ty: "kv".into(), border: rng.below(24) + 24 * (if rng.chance(1, 3) { rng.range(1, 3) } else { 0 }), xs: kv(rng, n, shape) }); }
         }
     }
     let nr = match tier { Tier::Quick => 120, Tier::Thorough => 1500 };
@@ -229,12 +234,12 @@ fn gen(rng: &mut Rng, tier: Tier) -> Vec<Case> {
         let chunk = match rng.below(4) { 0 => (n / 3).max(2), 1 => n.max(2), 2 => 1000, _ => rng.range(2, 60) as usize };
         let shape = rng.below(6);
         let xs = if ty == "kv" { kv(rng, n, shape) } else { real_items(rng, ty, n) };
-        push("random", C { rev: rng.chance(1, 4), chunk, threads: *rng.pick(&threads), comp: *rng.pick(&comps), tmp: rng.chance(1, 2), ty: ty.into(), border: rng.below(24) + 24 * (if rng.chance(1, 4) { rng.range(1, 2) } else { 0 }), xs });
+        push("random", C { rev: rng.chance(1, 4), chunk, threads: *rng.pick(&threads), comp: *rng.pick(&comps), tmp: rng.chance(1, 2), ty: ty.into(), border: rng.below(24) + 24 * (if rng.chance(1, 3) { rng.range(1, 3) } else { 0 }), xs });
     }
     // rayon's parallel quicksort path starts above 2000 elements per run: a few such inputs in every tier
     for (n, chunk, th) in [(5_000usize, 2_500usize, 8usize), (4_100, 4_100, 3)] {
         let xs: Vec<SItem> = (0..n).map(|i| (vec![rng.below(700)], (i as u32).to_be_bytes().to_vec())).collect();
-        push("parallel-sort", C { rev: rng.chance(1, 2), chunk, threads: th, comp: Some(4), tmp: true, ty: "kv".into(), border: rng.below(24) + 24 * (if rng.chance(1, 4) { rng.range(1, 2) } else { 0 }), xs });
+        push("parallel-sort", C { rev: rng.chance(1, 2), chunk, threads: th, comp: Some(4), tmp: true, ty: "kv".into(), border: rng.below(24) + 24 * (if rng.chance(1, 3) { rng.range(1, 3) } else { 0 }), xs });
     }
     if tier == Tier::Thorough {
         // large enough for par_sort_unstable_by to take its parallel path
@@ -250,7 +255,7 @@ fn gen(rng: &mut Rng, tier: Tier) -> Vec<Case> {
 pub fn prop() -> PropDef {
     PropDef {
         id: "C01",
-        rule: "corpus, then (a) lengths k*c-1, k*c, k*c+1 for chunk sizes c in {0,1,2,3,7,64} and k <= 4, and chunk sizes n, n+1, 1e6, 2^33, 2^40, usize::MAX/16, usize::MAX for n in {0,1,2,5,50} (chunk sizes from 2^28 run in a child process); (b) random inputs of 0-400 records with chunk sizes n/3, n, 1000, 2..60; inputs sorted / reversed / constant key / 3 keys (many ties) / random / with a 9 KiB and a 70 KiB record; record types (key,payload) compared by key only or reversed, GenomicRange (sort with its Ord, and sort_by), BED<6> with optional fields, NarrowPeak with float fields, BedGraph<f64>; threads in {1,2,3,8,16}, compression in {none,0,1,4,9,16}, explicit or default tmp dir; in a quarter of the cases the sorter is used for two sorts and the observed one is the first (second sort run and drained while the first result is unread) or the second (first result drained afterwards); thorough adds inputs of 9e3 to 3e4 records in chunks of 3e3 to 1.2e4 (above rayon's sequential cut-off of 2000). The number of chunks is kept <= 200 (open-file limit). Non-trivial: >= 2 records and (>= 2 runs or a tie under the comparator). Distinct = distinct input token sequence.",
+        rule: "corpus, then (a) lengths k*c-1, k*c, k*c+1 for chunk sizes c in {0,1,2,3,7,64} and k <= 4, and chunk sizes n, n+1, 1e6, 2^33, 2^40, usize::MAX/16, usize::MAX for n in {0,1,2,5,50} (chunk sizes from 2^28 run in a child process); (b) random inputs of 0-400 records with chunk sizes n/3, n, 1000, 2..60; inputs sorted / reversed / constant key / 3 keys (many ties) / random / with a 9 KiB and a 70 KiB record; record types (key,payload) compared by key only or reversed, GenomicRange (sort with its Ord, and sort_by), BED<6> with optional fields, NarrowPeak with float fields, BedGraph<f64>; threads in {1,2,3,8,16}, compression in {none,0,1,4,9,16}, explicit or default tmp dir; in a third of the cases the sorter is used for two sorts and the observed one is the first (second sort run and drained while the first result is unread) or the second (first result drained afterwards), or the sorter is dropped before the first item of its result is read; thorough adds inputs of 9e3 to 3e4 records in chunks of 3e3 to 1.2e4 (above rayon's sequential cut-off of 2000). The number of chunks is kept <= 200 (open-file limit). Non-trivial: >= 2 records and (>= 2 runs or a tie under the comparator). Distinct = distinct input token sequence.",
         observable: "initial len() and the item sequence as (comparator key, full bincode serialisation) or error items; ties compared as classes",
         gen, exec, shrink, child: Some(child),
     }
